@@ -3,7 +3,6 @@
 use super::*;
 use crate::api::*;
 use crate::pair::*;
-use crate::snapshot::snapshot;
 
 fn sync_sys(cfg: &Cfg, order: Order, prefix: &str) -> Box<dyn Sys> {
     Box::new(SyncSys {
@@ -267,7 +266,7 @@ fn hostile_sweep(cfg: &Cfg, p: &str, k: usize, vio: &mut Vec<Violation>, counter
                     let _ = std::fs::write(o.join("S"), b"outer S");
                 }
                 let os_before: Vec<String> = outer.iter().flat_map(|o| { let mut v = vec![]; os_tree(o, &o.join("root"), &mut v); v }).collect();
-                let raw_before: Vec<Vec<String>> = b.bases.iter().map(|base| snapshot(&base.raw, &[]).dump().into_iter().filter(|l| !line_below(l, &base.prefix)).collect()).collect();
+                let raw_before: Vec<String> = b.outside_altroot(p);
                 b.ctl.arm([0, 0]);
                 let r = guard(|| {
                     let target = match b.root.join(arg.as_str()) {
@@ -357,7 +356,7 @@ fn hostile_sweep(cfg: &Cfg, p: &str, k: usize, vio: &mut Vec<Violation>, counter
                         local.push(mk("call-outside-altroot", format!("underlying call {}({:?}) is outside {:?}", e.method, e.path, p)));
                     }
                 }
-                let raw_after: Vec<Vec<String>> = b.bases.iter().map(|base| snapshot(&base.raw, &[]).dump().into_iter().filter(|l| !line_below(l, &base.prefix)).collect()).collect();
+                let raw_after: Vec<String> = b.outside_altroot(p);
                 if raw_before != raw_after {
                     local.push(mk("changed-outside-altroot", format!("entries outside {:?} changed: {:?} -> {:?}", p, raw_before, raw_after)));
                 }
